@@ -8,7 +8,7 @@ LEDGER_FILES = ['a5/core/cell.py', 'a5/core/pentagon.py', 'a5/core/tiling.py', '
 MUST_ENTER = [('a5/core/cell.py', 'lonlat_to_cell'), ('a5/core/cell.py', 'cell_to_lonlat'), ('a5/core/cell.py', 'cell_to_boundary'),
               ('a5/core/tiling.py', 'get_pentagon_vertices'), ('a5/projections/polyhedral.py', '_safe_acos'), ('a5/math/vec3.py', 'slerp'),
               ('a5/math/vec3.py', 'vectorDifference')]
-CLASSES = ['uniform', 'polar', 'frame', 'antimeridian', 'wide', 'hug', 'edge', 'seam']
+CLASSES = ['uniform', 'polar', 'frame', 'antimeridian', 'wide', 'hug', 'edge', 'seam', 'equator']
 RULE = ('(a) points (lon, lat, r) from the hostile generators (uniform, polar, frame, antimeridian, wide, hug), r uniform in 0..29: '
         'authalic great-circle distance from p to the centre of its cell <= 1.0 cell widths; (b) cells: all cells of levels 2..4 (quick) / '
         '2..5 (thorough), structured deep ids, cells located at poles / frame points / antimeridian: the five corners (ring at segments=1) '
